@@ -9,7 +9,7 @@ from __future__ import annotations
 import warnings
 
 from .. import convs, refpdu, simnet, ulmodel
-from ..common import Violation, HarnessError, parallel, lib_frame
+from ..common import Violation, HarnessError, parallel, lib_frame, quiet_warnings
 
 LEVEL = 'fault_enumeration'
 ARTIM = ulmodel.ARTIM_SECONDS
@@ -457,7 +457,7 @@ def run_kill_stop(ctx, name, role, steps, only=None):
 
 
 def run_conv(ctx, job):
-    warnings.simplefilter('ignore')
+    quiet_warnings()
     role, steps = corpus(job['thorough'])[job['conv']]
     run_disconnects(ctx, job['conv'], role, steps)
     run_write_faults(ctx, job['conv'], role, steps)
@@ -513,7 +513,7 @@ def run_assoc_kill(ctx):
 
 
 def run(ctx):
-    warnings.simplefilter('ignore')
+    quiet_warnings()
     c = corpus(ctx.thorough)
     ctx.exhaustive = True
     ctx.rule = ('for each of %d conversations (both roles): peer disconnect after EVERY byte prefix of the peer\'s '
@@ -526,15 +526,22 @@ def run(ctx):
                        'the real DULServiceProvider.run() executes unmodified under vf/simnet.py',
                        'exhaustive over the scenario corpus, not over all conversations']
     parallel(ctx, run_conv, [{'conv': n, 'thorough': ctx.thorough} for n in sorted(c)])
-    run_silence(ctx)
-    run_trailing(ctx)
-    run_other_association(ctx)
-    run_backlog(ctx)
-    run_assoc_kill(ctx)
+    # the smaller parts run in worker shards as well, once per ambient condition of the runner (shard index mod 4:
+    # plain, library warnings as errors, plain, DEBUG logging)
+    parts = ('silence', 'trailing', 'other', 'backlog', 'assoc_kill')
+    parallel(ctx, run_part, [{'part': p_, 'ambient': k} for p_ in parts for k in range(4)])
+
+
+def run_part(ctx, job):
+    quiet_warnings()
+    from ..common import set_warnings, _AMBIENT
+    set_warnings(_AMBIENT['warnings_default'])        # (after the blanket 'ignore' above)
+    {'silence': run_silence, 'trailing': run_trailing, 'other': run_other_association, 'backlog': run_backlog,
+     'assoc_kill': run_assoc_kill}[job['part']](ctx)
 
 
 def replay(case):
-    warnings.simplefilter('ignore')
+    quiet_warnings()
     from ..common import Ctx
     sub = Ctx('C13', 'quick', 1)
     k = case['kind']
